@@ -140,6 +140,9 @@ type AuthServerMeta struct {
 //
 // [RFC 8414]: https://tools.ietf.org/html/rfc8414
 func GetAuthServerMeta(ctx context.Context, metadataURL, issuer string, c *http.Client) (*AuthServerMeta, error) {
+	if err := checkURLScheme(metadataURL); err != nil {
+		return nil, fmt.Errorf("metadataURL: %v", err)
+	}
 	// Only allow HTTP for local addresses (testing or development purposes).
 	if err := checkHTTPSOrLoopback(metadataURL); err != nil {
 		return nil, fmt.Errorf("metadataURL: %v", err)
